@@ -32,10 +32,10 @@ func init() {
 	core.Register(&core.Rule{
 		ID:    "R14.3",
 		Title: "malformed tunnelled requests reach an error return",
-		Text: "DecodeTunnelledQuery has a non-nil error return guarded by: a non-empty URL query with the override header; an empty query after the multipart loop; a nil body after the multipart loop; " +
+		Text: "DecodeTunnelledQuery has a non-nil error return guarded by: a non-empty URL query with the override header; an empty query after the multipart loop; a nil body after the multipart loop (and that test is live: some path reaches it with req.Body nil); " +
 			"the default clause of the part-type switch; the default clause of the outer content-type switch; the multipart reader error.  ServeHTTP calls it before receive.",
 		Props: []string{"C14"},
-		Floor: map[string]int{"v2": 7, "root": 7},
+		Floor: map[string]int{"v2": 8, "root": 8},
 		Run:   runR143,
 	})
 	core.Register(&core.Rule{
@@ -150,7 +150,10 @@ func runR142(c *core.Ctx) {
 		bQuery
 		bURI
 	)
-	type res struct{ ok bool; why string }
+	type res struct {
+		ok  bool
+		why string
+	}
 	results := map[*ast.ReturnStmt]res{}
 	auto := &core.Automaton{
 		Init: 0,
@@ -272,6 +275,37 @@ func runR143(c *core.Ctx) {
 		e, nonNil, ok := core.NilTest(inf, f)
 		return ok && !nonNil && reqFieldPath(inf, e, req) == "Body"
 	}), rel, "DecodeTunnelledQuery", "multipart without a body part is rejected", fd.Pos(), "", "no error return under req.Body == nil")
+	// … and that test is live: the body is nil (or unknown) on some path reaching it.  A body that was assigned a non-nil
+	// value on every path (http.NoBody as a placeholder) makes the rejection dead code.
+	reach := map[int]bool{}
+	tests := 0
+	core.NewFlow(c.M, inf, fd.Body).Run(&core.Automaton{
+		Init: 0, // 0 unknown, 1 nil, 2 non-nil
+		Node: func(st int, n ast.Node) int {
+			switch x := n.(type) {
+			case *ast.AssignStmt:
+				for i, l := range x.Lhs {
+					if reqFieldPath(inf, l, req) == "Body" && len(x.Lhs) == len(x.Rhs) {
+						if core.IsNil(inf, x.Rhs[i]) {
+							st = 1
+						} else {
+							st = 2
+						}
+					}
+				}
+			case ast.Expr:
+				for _, f := range core.Decompose(x, true, nil) {
+					if e, _, ok := core.NilTest(inf, f); ok && reqFieldPath(inf, e, req) == "Body" {
+						tests++
+						reach[st] = true
+					}
+				}
+			}
+			return st
+		},
+	})
+	c.Check(tests > 0 && (reach[0] || reach[1]), rel, "DecodeTunnelledQuery", "the missing-body test can observe a nil body", fd.Pos(), fmt.Sprintf("states reaching the test: unknown=%v nil=%v non-nil=%v", reach[0], reach[1], reach[2]),
+		"req.Body is non-nil on every path reaching the `req.Body == nil` test: a multipart request without a body part is no longer rejected")
 	// switch defaults return errors
 	nSw := 0
 	ast.Inspect(fd.Body, func(n ast.Node) bool {
